@@ -157,6 +157,12 @@ func (e *Exec) errorsIs(err, target IfaceV) bool {
 
 // now: the clock is a symbolic base instant plus what the harness advanced (zzverif.Advance, time.Sleep).
 func (e *Exec) now() TimeV {
+	if e.clock0 == nil && e.cfg.ConcreteClock {
+		// units whose property does not depend on the instant: the clock starts at a fixed instant
+		// (2000-01-01T00:00:00Z, the instant of the native synctest bubble)
+		e.clock0 = e.P.BV(64, 946684800_000000000)
+		e.clockAdv = e.P.BV(64, 0)
+	}
 	if e.clock0 == nil {
 		e.clock0 = e.P.Var("clock0", 64)
 		lim := e.P.BV(64, uint64(1)<<61)
@@ -420,7 +426,14 @@ func (e *Exec) zz(name string, args []Value) Value {
 		return IntV{T: e.input(e.labelArg(args[0]), 32), Signed: true}
 	case "Bool":
 		// a two-way catalogue pick: fork right away so that everything downstream is concrete
-		return BoolV{T: e.P.Bool(e.decide(e.input(e.labelArg(args[0]), 0)))}
+		t := e.input(e.labelArg(args[0]), 0)
+		b := e.chooseN(2) == 1
+		if b {
+			e.pc = append(e.pc, t)
+		} else {
+			e.pc = append(e.pc, e.P.Not(t))
+		}
+		return BoolV{T: e.P.Bool(b)}
 	case "Choice":
 		n := e.concInt(args[1])
 		t := e.input(e.labelArg(args[0]), 64)
@@ -429,7 +442,10 @@ func (e *Exec) zz(name string, args []Value) Value {
 			return IntV{T: e.P.BV(64, 0), Signed: true}
 		}
 		// a catalogue pick: fork over its values right away so that everything downstream is concrete
-		return IntV{T: e.P.BV(64, e.concretize(t)), Signed: true}
+		// (every value of a fresh variable below n is feasible: no solver call needed)
+		v := uint64(e.chooseN(n))
+		e.pc = append(e.pc, e.P.Cmp("=", t, e.P.BV(64, v)))
+		return IntV{T: e.P.BV(64, v), Signed: true}
 	case "Str":
 		return StrV{Sym: e.input(e.labelArg(args[0]), 64)}
 	case "Time":
